@@ -1,4 +1,5 @@
 import SpecVerif.Proofs.Lemmas.Dpss
+import SpecVerif.Proofs.Lemmas.SincKernel
 /-
   C18 — `dpss(N, NW, k)`: the Python glue around the C eigen-solver.
 
@@ -11,7 +12,10 @@ import SpecVerif.Proofs.Lemmas.Dpss
     3. the flip and the `1/√N` scaling preserve / produce orthonormality and do not change the ratio;
     4. the recomputed ratio `Σ_d acvs_d · r_d` IS the quadratic form `tᵀ K t` of the sinc concentration
        kernel `K[n,m] = sin(2πW(n-m))/(π(n-m))` (sum by diagonals);
-    5. hence it lies in `[0,1]` for a unit taper as soon as `0 ≤ K ≤ I` as quadratic forms (hypothesis).
+    5. hence it lies in `[0,1]` for a unit taper as soon as `0 ≤ K ≤ I` as quadratic forms (hypothesis);
+    6. that hypothesis is PROVED for `0 ≤ W ≤ 1/2` (`sinc_kernel_bounds`: `vᵀKv` is the energy of `Σ v_n e^{2πifn}` inside
+       `|f| ≤ W`, `vᵀv` its energy inside `|f| ≤ 1/2`), so the ratio lies in `[0,1]` unconditionally, and strictly inside
+       `(0,1)` for `0 < W < 1/2` (a non-zero trigonometric polynomial does not vanish on an interval).
   Property theorems only (helpers: `Proofs/Lemmas/Dpss.lean`, namespace `SpecVerif.DpssL`).
   All theorems are about the model at `R := ℝ` (instance `instRealFnReal`).
 -/
@@ -328,8 +332,8 @@ example : ∀ n, n < 2 → ∑ m ∈ range 2, sincKernel (1 / 4) n m * ([1, 1] :
 
 /-! ### 5. the ratio lies in `[0,1]` given the kernel bounds -/
 
-/-- if `0 ≤ vᵀKv ≤ vᵀv` for all `v` (a known fact about the sinc kernel for `0 ≤ W ≤ 1/2`, taken as a
-hypothesis) then the ratio reported for a unit taper lies in `[0,1]` -/
+/-- if `0 ≤ vᵀKv ≤ vᵀv` for all `v` (here a hypothesis; proved for `0 ≤ W ≤ 1/2` in section 6,
+`sinc_kernel_bounds`) then the ratio reported for a unit taper lies in `[0,1]` -/
 theorem rayleigh_in_unit_interval_of_kernel_bounds (N : ℕ) (W : ℝ)
     (hK : ∀ v : ℕ → ℝ,
       0 ≤ ∑ n ∈ range N, ∑ m ∈ range N, v n * sincKernel W n m * v m ∧
@@ -362,5 +366,134 @@ theorem reported_ratio_in_unit_interval {N : ℕ} (hN : 0 < N) (NW : ℝ) (raws 
   rw [glue_eigval_getD N NW raws tapsum hi, glue_taper_getD N NW raws tapsum hi]
   exact rayleigh_in_unit_interval_of_kernel_bounds N _ hK _ (dpssTaper_length N i _ _)
     (unit_norm_of_contract hN i _ _ hnorm)
+
+/-! ### 6. the kernel bounds are a theorem: `vᵀKv` is the in-band energy of `Σ v_n e^{2πifn}` -/
+
+open SpecVerif.SincL in
+/-- the quadratic form of the sinc kernel is the energy of the trigonometric polynomial `Σ_n v_n e^{2πifn}` inside the
+band `|f| ≤ W`, and `vᵀv` is its energy over the whole period `|f| ≤ 1/2` (Parseval); here
+`|Σ_n v_n e^{2πifn}|² = (Σ_n v_n cos 2πfn)² + (Σ_n v_n sin 2πfn)²`; any real `W` -/
+theorem kernel_quadform_is_inband_energy (N : ℕ) (W : ℝ) (v : ℕ → ℝ) :
+    ∑ n ∈ range N, ∑ m ∈ range N, v n * sincKernel W n m * v m
+      = ∫ f in (-W)..W, ((∑ n ∈ range N, v n * Real.cos (2 * Real.pi * f * (n : ℝ))) ^ 2
+          + (∑ n ∈ range N, v n * Real.sin (2 * Real.pi * f * (n : ℝ))) ^ 2) ∧
+    ∑ n ∈ range N, v n * v n
+      = ∫ f in (-(1 / 2 : ℝ))..(1 / 2), ((∑ n ∈ range N, v n * Real.cos (2 * Real.pi * f * (n : ℝ))) ^ 2
+          + (∑ n ∈ range N, v n * Real.sin (2 * Real.pi * f * (n : ℝ))) ^ 2) :=
+  ⟨quadform_eq_integral N W v, normsq_eq_integral N v⟩
+
+/-- **the kernel bounds**: for `0 ≤ W ≤ 1/2` and every real `v`, `0 ≤ vᵀKv ≤ vᵀv` — exactly the hypothesis `hK` of
+`rayleigh_in_unit_interval_of_kernel_bounds` -/
+theorem sinc_kernel_bounds (N : ℕ) (W : ℝ) (h0 : 0 ≤ W) (h1 : W ≤ 1 / 2) :
+    ∀ v : ℕ → ℝ,
+      0 ≤ ∑ n ∈ range N, ∑ m ∈ range N, v n * sincKernel W n m * v m ∧
+      ∑ n ∈ range N, ∑ m ∈ range N, v n * sincKernel W n m * v m ≤ ∑ n ∈ range N, v n * v n :=
+  fun v => ⟨SincL.quadform_nonneg N h0 v, SincL.quadform_le_normsq N h0 h1 v⟩
+
+/-- instance inside the property's domain: `N = 3`, `NW = 1`, `W = 1/3` -/
+example : ∀ v : ℕ → ℝ,
+    0 ≤ ∑ n ∈ range 3, ∑ m ∈ range 3, v n * sincKernel (1 / 3) n m * v m ∧
+    ∑ n ∈ range 3, ∑ m ∈ range 3, v n * sincKernel (1 / 3) n m * v m ≤ ∑ n ∈ range 3, v n * v n :=
+  sinc_kernel_bounds 3 (1 / 3) (by norm_num) (by norm_num)
+
+/-- strict kernel bounds: for `0 < W < 1/2` and `v` not identically zero on `[0,N)`, `0 < vᵀKv < vᵀv` (a non-zero
+trigonometric polynomial has positive energy in every interval of positive length: in the band and outside it) -/
+theorem sinc_kernel_bounds_strict (N : ℕ) (W : ℝ) (h0 : 0 < W) (h1 : W < 1 / 2)
+    (v : ℕ → ℝ) (hv : ∃ n, n < N ∧ v n ≠ 0) :
+    0 < ∑ n ∈ range N, ∑ m ∈ range N, v n * sincKernel W n m * v m ∧
+    ∑ n ∈ range N, ∑ m ∈ range N, v n * sincKernel W n m * v m < ∑ n ∈ range N, v n * v n :=
+  ⟨SincL.quadform_pos N h0 v hv, SincL.quadform_lt_normsq N h0.le h1 v hv⟩
+
+/-- positivity alone needs only `0 < W` (any bandwidth, also `W > 1/2`) -/
+theorem sinc_kernel_pos_def (N : ℕ) (W : ℝ) (h0 : 0 < W) (v : ℕ → ℝ) (hv : ∃ n, n < N ∧ v n ≠ 0) :
+    0 < ∑ n ∈ range N, ∑ m ∈ range N, v n * sincKernel W n m * v m :=
+  SincL.quadform_pos N h0 v hv
+
+/-- the hypotheses of the strict bounds are satisfiable: `N = 2`, `W = 1/4`, `v = (1, -1, 0, …)` gives
+`vᵀKv = 1 - 2/π ∈ (0, 2)` -/
+example : 0 < ∑ n ∈ range 2, ∑ m ∈ range 2,
+      (fun k : ℕ => if k = 0 then (1 : ℝ) else if k = 1 then -1 else 0) n * sincKernel (1 / 4) n m
+        * (fun k : ℕ => if k = 0 then (1 : ℝ) else if k = 1 then -1 else 0) m :=
+  (sinc_kernel_bounds_strict 2 (1 / 4) (by norm_num) (by norm_num) _ ⟨0, by norm_num, by norm_num⟩).1
+
+/-- the ratio `dpss` recomputes for a unit taper lies in `[0,1]` for `0 ≤ W ≤ 1/2` — no hypothesis on the kernel -/
+theorem rayleigh_in_unit_interval (N : ℕ) (W : ℝ) (h0 : 0 ≤ W) (h1 : W ≤ 1 / 2)
+    (t : List ℝ) (ht : t.length = N) (hunit : ∑ n ∈ range N, t.getD n 0 * t.getD n 0 = 1) :
+    0 ≤ dpssEigval N W t ∧ dpssEigval N W t ≤ 1 :=
+  rayleigh_in_unit_interval_of_kernel_bounds N W (sinc_kernel_bounds N W h0 h1) t ht hunit
+
+/-- … and strictly inside `(0,1)` for `0 < W < 1/2` -/
+theorem rayleigh_in_open_unit_interval (N : ℕ) (W : ℝ) (h0 : 0 < W) (h1 : W < 1 / 2)
+    (t : List ℝ) (ht : t.length = N) (hunit : ∑ n ∈ range N, t.getD n 0 * t.getD n 0 = 1) :
+    0 < dpssEigval N W t ∧ dpssEigval N W t < 1 := by
+  rw [eigval_eq_quadform N W t ht]
+  have hv : ∃ n, n < N ∧ (fun n => t.getD n 0) n ≠ 0 := by
+    by_contra hcon
+    push Not at hcon
+    have : ∑ n ∈ range N, t.getD n 0 * t.getD n 0 = 0 :=
+      Finset.sum_eq_zero (fun n hn => by rw [hcon n (Finset.mem_range.mp hn)]; ring)
+    rw [this] at hunit
+    exact zero_ne_one hunit
+  have h := sinc_kernel_bounds_strict N W h0 h1 (fun n => t.getD n 0) hv
+  exact ⟨h.1, hunit ▸ h.2⟩
+
+/-- `reported_ratio_in_unit_interval` with the kernel hypothesis discharged: under the C routine's contract
+(`Σ raw² = N`) every ratio returned by `dpss(N, NW)` with `0 ≤ NW ≤ N/2` (half-bandwidth `W = NW/N ∈ [0, 1/2]`)
+lies in `[0,1]` -/
+theorem reported_ratio_in_unit_interval_unconditional {N : ℕ} (hN : 0 < N) (NW : ℝ) (raws : List (List ℝ))
+    (tapsum : List ℝ) (hNW0 : 0 ≤ NW) (hNW1 : NW ≤ (N : ℝ) / 2)
+    {i : ℕ} (hi : i < raws.length)
+    (hnorm : ∑ n ∈ range N, (raws.getD i []).getD n 0 * (raws.getD i []).getD n 0 = (N : ℝ)) :
+    0 ≤ (dpssGlue N NW raws tapsum).2.getD i 0 ∧ (dpssGlue N NW raws tapsum).2.getD i 0 ≤ 1 := by
+  have hNR : (0 : ℝ) < (N : ℝ) := by exact_mod_cast hN
+  have h0 : 0 ≤ NW / (N : ℝ) := div_nonneg hNW0 hNR.le
+  have h1 : NW / (N : ℝ) ≤ 1 / 2 := by rw [div_le_iff₀ hNR]; linarith
+  exact reported_ratio_in_unit_interval hN NW raws tapsum (sinc_kernel_bounds N _ h0 h1) hi hnorm
+
+/-- the hypotheses are satisfiable, also at the end point `NW = N/2`: `N = 2`, `NW = 1`, raw column `(1, 1)` -/
+example : 0 ≤ (dpssGlue 2 (1 : ℝ) [[1, 1]] [2]).2.getD 0 0 ∧ (dpssGlue 2 (1 : ℝ) [[1, 1]] [2]).2.getD 0 0 ≤ 1 :=
+  reported_ratio_in_unit_interval_unconditional (N := 2) (i := 0) (by norm_num) 1 [[1, 1]] [2] (by norm_num) (by norm_num)
+    (by simp) (by simp [Finset.sum_range_succ]; norm_num)
+
+/-- the property on its whole domain and more (`1 ≤ NW < N/2` is inside `0 < NW < N/2`): under the C routine's
+contract every ratio returned by `dpss(N, NW)` lies STRICTLY between 0 and 1, in particular in `(0, 1]` -/
+theorem reported_ratio_in_open_unit_interval {N : ℕ} (hN : 0 < N) (NW : ℝ) (raws : List (List ℝ))
+    (tapsum : List ℝ) (hNW0 : 0 < NW) (hNW1 : NW < (N : ℝ) / 2)
+    {i : ℕ} (hi : i < raws.length)
+    (hnorm : ∑ n ∈ range N, (raws.getD i []).getD n 0 * (raws.getD i []).getD n 0 = (N : ℝ)) :
+    0 < (dpssGlue N NW raws tapsum).2.getD i 0 ∧ (dpssGlue N NW raws tapsum).2.getD i 0 < 1 := by
+  have hNR : (0 : ℝ) < (N : ℝ) := by exact_mod_cast hN
+  have h0 : 0 < NW / (N : ℝ) := div_pos hNW0 hNR
+  have h1 : NW / (N : ℝ) < 1 / 2 := by rw [div_lt_iff₀ hNR]; linarith
+  rw [glue_eigval_getD N NW raws tapsum hi, glue_taper_getD N NW raws tapsum hi]
+  exact rayleigh_in_open_unit_interval N _ h0 h1 _ (dpssTaper_length N i _ _)
+    (unit_norm_of_contract hN i _ _ hnorm)
+
+/-- the concentration ratios lie in `(0, 1]` on the closed range `0 < NW ≤ N/2` (at `NW = N/2` the kernel is the
+identity and every ratio is exactly 1) -/
+theorem reported_ratio_in_Ioc {N : ℕ} (hN : 0 < N) (NW : ℝ) (raws : List (List ℝ))
+    (tapsum : List ℝ) (hNW0 : 0 < NW) (hNW1 : NW ≤ (N : ℝ) / 2)
+    {i : ℕ} (hi : i < raws.length)
+    (hnorm : ∑ n ∈ range N, (raws.getD i []).getD n 0 * (raws.getD i []).getD n 0 = (N : ℝ)) :
+    0 < (dpssGlue N NW raws tapsum).2.getD i 0 ∧ (dpssGlue N NW raws tapsum).2.getD i 0 ≤ 1 := by
+  refine ⟨?_, (reported_ratio_in_unit_interval_unconditional hN NW raws tapsum hNW0.le hNW1 hi hnorm).2⟩
+  have hNR : (0 : ℝ) < (N : ℝ) := by exact_mod_cast hN
+  have hunit := unit_norm_of_contract hN i (raws.getD i []) (tapsum.getD i 0) hnorm
+  rw [reported_ratio_is_rayleigh N NW raws tapsum hi, glue_taper_getD N NW raws tapsum hi]
+  apply sinc_kernel_pos_def N _ (div_pos hNW0 hNR) (fun n => (dpssTaper N i (raws.getD i []) (tapsum.getD i 0)).getD n 0)
+  by_contra hcon
+  push Not at hcon
+  have : ∑ n ∈ range N, (dpssTaper N i (raws.getD i []) (tapsum.getD i 0)).getD n 0
+      * (dpssTaper N i (raws.getD i []) (tapsum.getD i 0)).getD n 0 = 0 :=
+    Finset.sum_eq_zero (fun n hn => by rw [hcon n (Finset.mem_range.mp hn)]; ring)
+  rw [this] at hunit
+  exact zero_ne_one hunit
+
+/-- the hypotheses are satisfiable inside the property's domain `1 ≤ NW < N/2`: `N = 3`, `NW = 1`, one raw column
+`(1, 1, 1)` of squared norm `3 = N` -/
+example : 0 < (dpssGlue 3 (1 : ℝ) [[1, 1, 1]] [3]).2.getD 0 0 ∧
+    (dpssGlue 3 (1 : ℝ) [[1, 1, 1]] [3]).2.getD 0 0 < 1 :=
+  reported_ratio_in_open_unit_interval (N := 3) (i := 0) (by norm_num) 1 [[1, 1, 1]] [3] (by norm_num) (by norm_num)
+    (by simp) (by simp [Finset.sum_range_succ]; norm_num)
 
 end SpecVerif.C18
